@@ -224,14 +224,8 @@ def rule_axis_primitives(repo, col):
     the axis they are asked for."""
     rule = 'AX-PRIM'
     f = repo.func(TABLE, 'Table._axis_to_num')
-    m = {}
-    for n in ast.walk(f):
-        if isinstance(n, ast.If) and isinstance(n.test, ast.Compare):
-            k = const_str(n.test.comparators[0])
-            for b in n.body:
-                if isinstance(b, ast.Return) and isinstance(b.value,
-                                                            ast.Constant):
-                    m[k] = b.value.value
+    from .consteval import axis_num_mapping
+    m = axis_num_mapping(repo)
     col.check(m == {'sample': 1, 'observation': 0}, rule, TABLE,
               'Table._axis_to_num', 'map', f,
               "sample -> 1, observation -> 0", 'axis numbering is %s: '
